@@ -115,7 +115,12 @@ CFG = dict(
                "over the history; also (2i+1) * u * max accumulator), two histories with the same window differ by at most the "
                "two bounds (C06_history_independence_up_to_rounding_ts_vsum), the only premise being that the emitted value is "
                "finite, and on dyadic-grid data (the generated k/4 inputs) no operation rounds, so the binary64 run equals the "
-               "exact run; for the other accumulator families (mean, var, skew, kurt, ewm, wma, cross sums, trend) the rounding "
+               "exact run; the rolling MEAN likewise ((18)-(19), Proofs/RoundMean.v; the division can underflow): within "
+               "((1+u)^(m+1) - 1) * H / n + 2^-1075 of the exact window mean after any history, two histories with the same window "
+               "differ by at most the two bounds (C06_history_independence_up_to_rounding_ts_vmean; premise w < 2^53, also rests on "
+               "FloatAxioms.div_spec / of_uint63_spec), and (20) the exactness of the rolling sum on grid data needs only every WINDOW in "
+               "range, not the history (all four power sums: C01_moment_state_exact_on_grid); for the other accumulator families "
+               "(var, skew, kurt, ewm, wma, cross sums, trend) the rounding "
                "bound is still only the tolerance of the two-history runs. Tied to the code by relational runs on the implementation (all "
                "cuts, bit for bit; two histories) plus the model run on every prefix, and statically (translator, Proofs/SrcTablesRoll.v, "
                "re-checked on every run): which entry points clamp the window to the series length before computing min_periods — the one "
